@@ -757,6 +757,17 @@ _wn = _WrapNumbers()
 wrap_numbers.cache_clear = _wn.cache_clear
 wrap_numbers.cache_info = _wn.cache_info
 
+if hasattr(os, "register_at_fork"):
+    # os.fork() while another thread is inside wrap_numbers() would
+    # leave the child with a lock nobody can release (and possibly with
+    # a half updated cache): hold the lock across the fork instead.
+    # Only the lock is touched; the child keeps the history.
+    os.register_at_fork(
+        before=_wn.lock.acquire,
+        after_in_parent=_wn.lock.release,
+        after_in_child=_wn.lock.release,
+    )
+
 
 # The read buffer size for open() builtin. This (also) dictates how
 # much data we read(2) when iterating over file lines as in:
